@@ -341,7 +341,9 @@ type storageGen struct {
 	ips       []string
 	blocks    int
 	lastBuy   *sttypes.MsgBuyStorage
-	signSoon  int                  // forms profile: the next few operations are signatures on open forms (after the quorum parameters moved)
+	signSoon  int      // forms profile: the next few operations are signatures on open forms (after the quorum parameters moved)
+	out       *Emitter // for side records (name resolutions put to the rns model)
+	hi        int
 	lastPost  *sttypes.MsgPostFile // the last pay-once posting and the height it was sent at
 	lastPostH int64
 	burst     int        // how many more equal purchases follow at once (three and more deposits into one gauge id)
@@ -487,6 +489,9 @@ func (g *storageGen) next() (sdk.Msg, map[string]interface{}, func(pre, post stS
 		}
 		msg := &sttypes.MsgBuyStorage{Creator: rawCreator, ForAddress: rawFor, DurationDays: days, Bytes: byts, PaymentDenom: denom, Referral: ref}
 		g.lastBuy = msg
+		if g.out != nil && ref != "" {
+			c.emitResolve(g.out, g.hi, g.blocks, ref, g.users)
+		}
 		op := map[string]interface{}{"buyStorage": map[string]interface{}{"creator": creator, "forAddress": forAddr, "durationDays": days, "bytes": byts, "denom": denom, "referral": refJ, "jklPrice": g.jklPriceRaw(), "gaugeId": "", "gaugeAcc": "", "creatorRaw": rawCreator, "forAddressRaw": rawFor}}
 		return msg, op, fillGauge("buyStorage", new(big.Int).Add(big.NewInt(c.T.UnixNano()), big.NewInt(days*86400_000_000_000))) // time.Duration(days)*24h wraps in int64
 	case k < m.buy+m.post:
@@ -901,7 +906,7 @@ func runStorage(profile string, seed int64, histories, steps int, out *Emitter) 
 		}
 		c := NewChain(mix.users, []string{"ujkl", "utest"}, mut)
 		seenGaugeAccs = nil
-		g := &storageGen{c: c, r: r, data: map[string]*dataFile{}, mix: mix, qr: rand.New(rand.NewSource(seed*7919 + int64(hi) + 17)), noGauges: noGauges}
+		g := &storageGen{c: c, r: r, data: map[string]*dataFile{}, mix: mix, qr: rand.New(rand.NewSource(seed*7919 + int64(hi) + 17)), noGauges: noGauges, out: out, hi: hi}
 		for _, u := range c.Users {
 			g.users = append(g.users, u.String())
 		}
